@@ -86,8 +86,10 @@ def concretise(sc: Dict[str, Any], tmp: Path, h: int) -> Tuple[List[str], Dict[s
                {"mode": "by_position", "context": {"factor": [2.0]}, "source": {"format": "xml", "path": "a.xml"}}][h % 3]
         doc["run_space"]["blocks"] = [bad]
     elif d == "validation_fails":
-        k = h % 5
-        if k == 4:
+        k = h % 6
+        if k == 5:
+            nodes.insert(2, {"processor": "FloatValueDataSource", "parameters": {"value": 2.0}})   # a data source fed with data
+        elif k == 4:
             nodes[3]["parameters"] = {"bogus": None}        # an unknown parameter is unknown whatever its value (YAML null)
         elif k == 0:
             nodes[3]["parameters"] = {"bogus": 1.0}
